@@ -1,2 +1,3 @@
 import MqttVerif.Props.C09
+import MqttVerif.Props.C18
 import MqttVerif.Props.C20
